@@ -4,6 +4,7 @@ import (
 	"context"
 	"crypto/tls"
 	"fmt"
+	"io"
 	"reflect"
 	"strings"
 	"time"
@@ -28,6 +29,7 @@ var scenarioNames = []string{
 	"broker-unsubscribe-nil-or-twice",
 	"listener-close-vs-shutdown",
 	"close-after-peer-cancelread",
+	"dial-then-cancel-context",
 }
 
 // MaxIdleTimeoutForQuicConnections while the harness runs; a connection whose peer is gone ends at
@@ -669,6 +671,125 @@ func scenarioMain(args []string) {
 			res.violate("Listener.Close() did not return within 5s", "hang:listener-close", nil)
 		}
 		count(name+"|accept-timeout", true)
+	case "dial-then-cancel-context":
+		// the idiomatic  ctx, cancel := context.WithTimeout(...); conn, err := DialContext(ctx, ...); cancel()
+		// the context governs the dial, not the connection it returns: the stream must work
+		st, ct := fastTLS()
+		li, err := b.Listen("svc", st)
+		Must(err)
+		acc := make(chan *netceptor.Conn, 64)
+		accErrs := make(chan error, 64)
+		go func() {
+			for {
+				c, err := li.Accept()
+				if err != nil {
+					if strings.Contains(err.Error(), "listener closed") {
+						return
+					}
+					accErrs <- err
+					continue
+				}
+				acc <- c.(*netceptor.Conn)
+			}
+		}()
+		// how long does a dial take here?  The contexts below end at about that time
+		var lat time.Duration
+		for i := 0; i < 8; i++ {
+			t := time.Now()
+			c, err := a.DialContext(context.Background(), "beta", "svc", ct)
+			if err != nil {
+				res.violate("dial to an open listener failed: "+err.Error(), "dial-failed", nil)
+				break
+			}
+			if d := time.Since(t); lat == 0 || d < lat {
+				lat = d // the fastest of them
+			}
+			ac := <-acc
+			_ = c.CloseConnection()
+			_ = ac.Close()
+		}
+		res.hist(fmt.Sprintf("scenario-dial-latency<=%dms", lat.Milliseconds()+1))
+		succeeded := 0
+		dead := 0
+		for i := 0; i < 400 && dead < 3; i++ {
+			from := a
+			if i%3 == 2 {
+				from = b // a dial within the node
+			}
+			// every third context is cancelled by the caller right after the dial, the others end
+			// by themselves at about the time the dial needs
+			timeout := 5 * time.Second
+			if i%3 != 0 {
+				timeout = lat/2 + time.Duration(uint64(i)*2654435761%uint64(lat+1))*2
+			}
+			ctx, cancel := context.WithTimeout(context.Background(), timeout)
+			c, err := from.DialContext(ctx, "beta", "svc", ct)
+			cancel()
+			if err != nil {
+				if i%3 == 0 {
+					res.violate("dial to an open listener failed: "+err.Error(), "dial-failed", nil)
+					break
+				}
+				// gave up in time: the accepting side may still surface a connection, which it closes
+				time.Sleep(5 * time.Millisecond)
+				for more := true; more; {
+					select {
+					case x := <-acc:
+						_ = x.Close()
+					case <-accErrs:
+					default:
+						more = false
+					}
+				}
+				continue
+			}
+			succeeded++
+			msg := []byte(fmt.Sprintf("hello %d", i))
+			_, werr := c.Write(msg)
+			var ac *netceptor.Conn
+			var aerr error
+			ename := c.LocalAddr().String()
+			ename = ename[strings.LastIndex(ename, ":"):]
+			// (errors of Accept may belong to earlier dials that had given up: they are only reported)
+			for wait, waiting := time.After(10*time.Second), true; ac == nil && waiting; {
+				select {
+				case x := <-acc:
+					if strings.HasSuffix(x.RemoteAddr().String(), ename) {
+						ac = x
+					} else {
+						_ = x.Close() // of a dial that had given up
+					}
+				case aerr = <-accErrs:
+				case <-wait:
+					waiting = false
+				}
+			}
+			ok := false
+			if ac != nil {
+				buf := make([]byte, len(msg))
+				_ = ac.SetReadDeadline(time.Now().Add(5 * time.Second))
+				_, rerr := io.ReadFull(ac, buf)
+				ok = rerr == nil && string(buf) == string(msg)
+				_ = ac.Close()
+			}
+			if !ok {
+				dead++
+				res.violate(fmt.Sprintf("dial #%d succeeded, its context was cancelled right after DialContext returned, and the stream is dead: Write returned %v, the accepting side got no working connection within 10s (connection=%v, last Accept error: %v)", i, werr, ac != nil, aerr), "stream-dead-after-dial-context-cancel", nil)
+			}
+			_ = c.CloseConnection()
+			if i%50 == 0 {
+				lg.step("dial %d", i)
+			}
+		}
+		res.hist(fmt.Sprintf("scenario-dials-with-ending-context-that-succeeded=%d", succeeded))
+		count(name, true)
+		done := make(chan struct{})
+		go func() { _ = li.Close(); close(done) }()
+		select {
+		case <-done:
+		case <-time.After(5 * time.Second):
+			res.violate("Listener.Close() did not return within 5s", "hang:listener-close", nil)
+		}
 	case "shutdown-stops-all":
 		st, ct := fastTLS()
 		pc, _ := a.ListenPacket("one")
